@@ -7,6 +7,7 @@ import NakenVerif.Safe.Macho
 import NakenVerif.Safe.Sniff
 import NakenVerif.Safe.Cmd
 import NakenVerif.Generated.UtilTable
+import NakenVerif.Generated.UtilCommands
 import NakenVerif.Generated.Limits
 import Driver.FileIO
 /-
@@ -137,17 +138,15 @@ def bytesOf (big : Bool) (step : Nat) (a v : Nat) : List (Nat × UInt8) :=
   let bs := if big then le.reverse else le
   (List.range step).zip bs |>.map (fun (k, b) => ((a + k) % 4294967296, b))
 
-/-- `int n = address; printf("0x%04x", n / bytes_per_address)`: signed division, printed as unsigned -/
-def printedAddr (a bpa : Nat) : Nat :=
-  let n : Int := if a < 2147483648 then (a : Int) else (a : Int) - 4294967296
-  ((n.tdiv (bpa : Int)) % 4294967296).toNat
+/-- `uint32_t n = address; printf("0x%04x", n / bytes_per_address)` -/
+def printedAddr (a bpa : Nat) : Nat := a / bpa
 
 def handleSwrite (args : List String) : String :=
   match args with
   | [w, cpu, syms, h] =>
     let c := cpuInfo cpu
     let step := if w == "8" then 1 else if w == "16" then 2 else 4
-    let mask := if w == "8" then 0 else if w == "16" then (c.alignment - 1) &&& 1 else c.alignment - 1
+    let mask := if w == "8" then 0 else if w == "16" then (c.alignment - 1) &&& 1 else (c.alignment - 1) &&& 3
     match Cmd.write true (lookupOf (parseSyms syms)) c.bytesPerAddress mask step (cstr h) with
     | .error e => fault e
     | .ok .badAddress => "bad-address"
@@ -166,9 +165,9 @@ def handleSprint (args : List String) : String :=
     | .ok (r, a, b) =>
       if r ≠ 0 then "none" else
       let res :=
-        if w == "8" then Cmd.print 20 1 1 15 0 false a b
-        else if w == "16" then Cmd.print 20 2 2 15 ((c.alignment - 1) &&& 1) true a b
-        else Cmd.print 20 4 2 7 (c.alignment - 1) true a b
+        if w == "8" then Cmd.print 20 1 1 15 0 c.bytesPerAddress false a b
+        else if w == "16" then Cmd.print 20 2 2 15 ((c.alignment - 1) &&& 1) c.bytesPerAddress true a b
+        else Cmd.print 20 4 2 7 ((c.alignment - 1) &&& 3) c.bytesPerAddress true a b
       match res with
       | .error e => fault e
       | .ok none => "none"
@@ -183,7 +182,6 @@ def handleSprint (args : List String) : String :=
 def handleSwalk (args : List String) : String :=
   match args with
   | [cpu, cells, start, stop] =>
-    let c := cpuInfo cpu
     let segs : List (Nat × List UInt8) :=
       if cells == "-" then [] else (cells.splitOn ";").filterMap (fun seg =>
         match seg.splitOn ":" with
@@ -197,14 +195,14 @@ def handleSwalk (args : List String) : String :=
     let pageMax (a : Nat) : Nat := (addrs.filter (fun x => x / ps == a / ps)).foldl Nat.max 0
     let s0 := parseHexNat start.toList
     let e0 := parseHexNat stop.toList
-    match Cmd.walk inUse ps true s0 (s0 * c.bytesPerAddress % 4294967296) (e0 * c.bytesPerAddress % 4294967296) with
+    match Cmd.walk inUse ps true s0 e0 with
     | .error e => fault e
     | .ok rs =>
       let out := rs.reverse.map (fun (a, b) => natHex (pageMin (a % 4294967296)) ++ "-" ++ natHex (pageMax (b % 4294967296)))
       "r=" ++ (if out.isEmpty then "-" else ",".intercalate out)
   | _ => "bad-op"
 
-def commandTable : List CommandInfo := commandNames.map (fun (n, a, o) => { name := n, hasArg := a, isOptional := o })
+def commandTable : List CommandInfo := utilCommands.map (fun (n, a, o) => { name := n, hasArg := a, isOptional := o })
 
 def handleSvalid (args : List String) : String :=
   match args with
